@@ -449,8 +449,8 @@ func recoverFrom(c *Case, w *WF, ex *Expect, sn Snap, cleanup bool, snapshots bo
 		}
 		// whatever it finalized before stopping is still correct
 		for p, want := range ex.Files {
-			if ex.Extras[p] {
-				continue
+			if ex.Extras[p] || ex.Owner[p] == nil {
+				continue // only what TASKS finalize (a Concatenator writes its output in place)
 			}
 			if id, ok := idOf(s.FS.Root, p); ok && id.data != string(want) {
 				return inc, Viol("wrong-content-after-refusal", "", "%s; re-run without cleanup left %s with %q (reference %q)", what, p, clip([]byte(id.data)), clip(want))
@@ -586,11 +586,73 @@ func convSig(inc *Inc, ex *Expect, root *simrt.Inode) string {
 	return "kill-between-output-renames"
 }
 
+// concatWF: a gathering component that writes its output in place
+// (Concatenator) between command processes.
+func concatWF(c *Case) *WF {
+	t := c.Tape
+	w := &WF{Name: "wf", Sources: map[string]string{}}
+	n := 1 + t.Choose(simrt.StGen, 3, 0)
+	e := Edge{srcNode(w, "src0", n, ""), "out"}
+	if t.Choose(simrt.StGen, 2, 0) == 1 {
+		e = Edge{oneToOne(w, "pre", e), "o0"}
+	}
+	cc := addNode(w, Node{Name: "cat", Kind: KConcat, OutPath: "concat/all.txt",
+		Ins: []InSpec{{Name: "in", From: []Edge{e}}}, Outs: []OutSpec{{Name: "out"}}})
+	if t.Choose(simrt.StGen, 2, 0) == 1 {
+		oneToOne(w, "use", Edge{cc, "out"})
+	}
+	w.MaxTasks = 1 + t.Choose(simrt.StGen, 3, 0)
+	w.Bufsize = bufsizeOf(t)
+	return w
+}
+
+// streamLeftoverCase: streaming workflows, only the clause "if leftovers
+// (temp directories, FIFOs) are not removed, the re-run stops with a non-zero
+// exit status instead of adopting them" (convergence of streaming re-runs is
+// C17's business, and broken there by F-C17-2).
+func streamLeftoverCase(c *Case) Verdict {
+	w := streamWF(c)
+	ex := Eval(w)
+	c.Sample = "streaming, re-run on leftovers without cleanup: " + sample(w)
+	inc := RunInc(w, c.Tape, nil, 0, IncOpts{KillAt: -1, Strategy: strategyOf(c.Tape), Trace: c.Trace, Snapshots: true})
+	c.Absorb(inc)
+	if v := flowOracle(inc, ex); v.Status != "ok" {
+		return foreign(v)
+	}
+	for _, sn := range inc.Snaps {
+		left := Leftovers(sn.Root)
+		if len(left) == 0 {
+			continue
+		}
+		c.CrashStates++
+		c.Fault("kill@state")
+		c.Fault("rerun-without-cleanup")
+		inc2 := RunInc(w, c.Tape, sn.Root, sn.NextIno, IncOpts{KillAt: -1, Strategy: strategyOf(c.Tape), Trace: c.Trace})
+		c.Absorb(inc2)
+		if v, ok := inconclusiveEnd(inc2); ok {
+			return v
+		}
+		what := fmt.Sprintf("killed after fs operation #%d (%s %s)", sn.JSeq, sn.Entry.Op, strings.TrimPrefix(sn.Entry.Path, "/work/"))
+		if completedOK(inc2) || (inc2.Sim.End == simrt.EndExit && inc2.Sim.ExitCode == 0) {
+			return Viol("leftovers-adopted", "", "%s; leftovers %v not removed, yet the re-run ended with %s", what, left, endDesc(inc2))
+		}
+	}
+	return OK()
+}
+
 func init() {
 	Register(&Check{ID: "C03", Level: "fault_enumeration",
 		Rule: "one case = one generated workflow under one tape-chosen schedule; for that schedule EVERY distinct crash state (fs after each journalled mutation) is used as a kill point, and for each the history 'cleanup of _scipipe_tmp*/FIFO entries + re-run' is executed and must converge: exit 0, file set and bytes = reference (= uninterrupted result), outputs final before the re-run keep (inode, mtime), no task with all outputs final is re-executed. For tape-chosen states additionally: re-run WITHOUT cleanup (must refuse with exit != 0 whenever a leftover exists, finalized files still correct) and a nested crash during recovery (kill the re-run at a tape-chosen crash state, cleanup, re-run). evaluations = incarnations; distinct = event-log hash over the whole history; non-trivial = >=2 tasks and >=1 non-default choice",
 		Run: func(c *Case) Verdict {
-			w := Generate(c.Tape, crashTierProfile(profC03, c.Tier))
+			var w *WF
+			switch c.Tape.Choose(simrt.StGen, 8, 0) {
+			case 1:
+				return streamLeftoverCase(c)
+			case 2:
+				w = concatWF(c)
+			default:
+				w = Generate(c.Tape, crashTierProfile(profC03, c.Tier))
+			}
 			ex := Eval(w)
 			c.Sample = "crash/cleanup/re-run at every crash state: " + sample(w)
 			inc := RunInc(w, c.Tape, nil, 0, IncOpts{KillAt: -1, Strategy: strategyOf(c.Tape), Trace: c.Trace, Snapshots: true})
